@@ -1,10 +1,46 @@
 import Pendulum.Drv.Util
-/-! request handler for property C18 (stub until the property is built) -/
+import Pendulum.Model.Diff
+import Pendulum.Gen.Locales
+/-! request handler for property C18 (human-readable differences, in_words, locale tokens) -/
 namespace Pendulum.Drv.C18
-open Pendulum Pendulum.Drv
+open Pendulum Pendulum.Drv Pendulum.Loc
+
+def findLoc (w : String) : Option Locale := Gen.Locales.all.find? (·.name == w)
+
+def reply : Except Err Str → String
+  | .ok s => "ok " ++ encStr (String.ofList s)
+  | .error e => "err " ++ e.name
 
 def handle (_zs : Zones) (ws : List String) : Option String :=
   match ws with
+  | ["c18fmt", l, y, mo, w, d, h, mi, s, inv, isNow, ab] => do
+    let ℓ ← findLoc l
+    let y ← y.toInt?; let mo ← mo.toInt?; let w ← w.toInt?; let d ← d.toInt?
+    let h ← h.toInt?; let mi ← mi.toInt?; let s ← s.toInt?
+    some (reply (format ℓ ⟨y, mo, w, d, h, mi, s, inv == "1"⟩ (isNow == "1") (ab == "1")))
+  | ["c18words", l, y, mo, w, d, h, mi, s, us, sep] => do
+    let ℓ ← findLoc l
+    let y ← y.toInt?; let mo ← mo.toInt?; let w ← w.toInt?; let d ← d.toInt?
+    let h ← h.toInt?; let mi ← mi.toInt?; let s ← s.toInt?; let us ← us.toInt?
+    let sep ← decStr sep
+    some (reply (inWords ℓ ⟨y, mo, w, d, h, mi, s, false⟩ us sep.toList))
+  | ["c18plural", l, n] => do
+    let ℓ ← findLoc l
+    let n ← n.toInt?
+    some ("ok " ++ encStr (ℓ.plural n) ++ " " ++ encStr (ℓ.ordinal n))
+  | ["c18ordz", l, n] => do
+    let ℓ ← findLoc l
+    let n ← n.toInt?
+    some (reply (ordinalize ℓ n))
+  | ["c18tok", l, tok, month, dow, day, q, woy, doy, hour] => do
+    let ℓ ← findLoc l
+    let month ← month.toInt?; let dow ← dow.toInt?; let day ← day.toInt?; let q ← q.toInt?
+    let woy ← woy.toInt?; let doy ← doy.toInt?; let hour ← hour.toInt?
+    some (reply (formatToken ℓ tok ⟨month, dow, day, q, woy, doy, hour⟩))
+  | ["c18micro", x] => do
+    let x ← x.toNat?
+    some ("ok " ++ encStr (String.ofList (fmtMicro x)))
+  | ["c18locales"] => some ("ok " ++ encStr (",".intercalate Gen.Locales.names))
   | _ => none
 
 end Pendulum.Drv.C18
